@@ -16,6 +16,7 @@ import (
 	"runtime"
 	"strings"
 	"sync"
+	"sync/atomic"
 	"time"
 
 	"github.com/google/badwolf/bql/grammar"
@@ -672,6 +673,10 @@ func main() {
 	// case that killed it
 	var mu sync.Mutex
 	var wg sync.WaitGroup
+	// once this many cases have hit the watchdog the first pass stops (every further one costs the watchdog time again and the
+	// verdict is already decided by the confirmation pass below)
+	const maxHangs = 16
+	var hangs int32
 	var suspects []result // hang outcomes of the first pass (5 s watchdog): confirmed below before they are reported
 	emit := func(line string) {
 		mu.Lock()
@@ -680,6 +685,7 @@ func main() {
 			var r result
 			if json.Unmarshal([]byte(line), &r) == nil && r.Outcome == "hang" {
 				suspects = append(suspects, r)
+				atomic.AddInt32(&hangs, 1)
 				return
 			}
 		}
@@ -695,6 +701,9 @@ func main() {
 			defer wg.Done()
 			next := w
 			for next < total {
+				if atomic.LoadInt32(&hangs) >= maxHangs {
+					return
+				}
 				cmd := exec.Command(os.Args[0], "-child", "-from", fmt.Sprint(next), "-stride", fmt.Sprint(W), "-seed", fmt.Sprint(*seed), "-n", fmt.Sprint(*n), "-exhaust", fmt.Sprint(*exhaust), "-extra", *extra)
 				out, _ := cmd.StdoutPipe()
 				var errb strings.Builder
@@ -733,6 +742,10 @@ func main() {
 		}(w)
 	}
 	wg.Wait()
+	if atomic.LoadInt32(&hangs) >= maxHangs {
+		b, _ := json.Marshal(result{-1, "note", "", "", "first_pass_stopped_after_watchdog_hits", fmt.Sprintf("%d cases hit the 5 s watchdog; the remaining cases were not run", hangs), 0, nil, [2]int{}})
+		fmt.Println(string(b))
+	}
 	// confirmation pass: each suspect alone in a fresh process with the patient watchdog; what that run says is reported.
 	// After three confirmed ones the rest is reported as first seen (the alarm is already certain).
 	confirmed := 0
